@@ -1,0 +1,42 @@
+//go:build verif
+// +build verif
+
+package xpath
+
+import (
+	"fmt"
+	"sort"
+)
+
+// This file is compiled only with the build tag "verif". It adds read-only
+// accessors needed by the verification harness under /verif and touches no
+// existing code.
+
+// VerifCacheStats returns the number of entries, the capacity and the number
+// of resets of a loading cache.
+func VerifCacheStats(c *loadingCache) (entries, capacity, resets int) {
+	c.RLock()
+	entries, capacity, resets = len(c.m), c.cap, c.reset
+	c.RUnlock()
+	return
+}
+
+// VerifCacheEntries returns the keys and values held by a loading cache,
+// sorted by the printed form of the key.
+func VerifCacheEntries(c *loadingCache) (keys, values []interface{}) {
+	c.RLock()
+	for k := range c.m {
+		keys = append(keys, k)
+	}
+	sort.Slice(keys, func(i, j int) bool { return fmt.Sprint(keys[i]) < fmt.Sprint(keys[j]) })
+	for _, k := range keys {
+		values = append(values, c.m[k])
+	}
+	c.RUnlock()
+	return
+}
+
+// VerifCacheGet calls the unexported get method of a loading cache.
+func VerifCacheGet(c *loadingCache, key interface{}) (interface{}, error) {
+	return c.get(key)
+}
